@@ -36,6 +36,10 @@ CONFIG_MACROS = {
     'XALAN_INDEX_VALUE_TYPE_BUG': False,
     'XALAN_NO_DEFAULT_TEMPLATE_ARGUMENTS': False,
     'XALAN_ALLOW_INDEXING_IN_PATTERNS': False,
+    'XALAN_HAVE_STD_ISNAN': True,
+    'XALAN_HAVE_ISNAN': True,
+    'XALAN_HAVE__ISNAN': False,
+    '__cplusplus': True,
 }
 
 
@@ -92,10 +96,20 @@ def _eval_cond(kind, expr, dropped):
 
     def rep(m):
         name = m.group(1)
+        if '_HEADER_GUARD_' in name or name.endswith('_INCLUDE_GUARD') or name.endswith('_HPP'):
+            return ' False '
         if name not in CONFIG_MACROS:
             raise ExtractionBreak('preprocessor conditional on unknown macro %s' % name)
         return ' True ' if CONFIG_MACROS[name] else ' False '
     e = re.sub(r'defined\s*\(?\s*(\w+)\s*\)?', rep, expr)
+    def bare(m):
+        name = m.group(0)
+        if name in ('True', 'False'):
+            return name
+        if name not in CONFIG_MACROS:
+            raise ExtractionBreak('preprocessor conditional on unknown macro %s' % name)
+        return ' True ' if CONFIG_MACROS[name] else ' False '
+    e = re.sub(r'\b[A-Za-z_]\w*\b', bare, e)
     e = e.replace('&&', ' and ').replace('||', ' or ')
     e = re.sub(r'!(?!=)', ' not ', e)
     if not re.fullmatch(r'[\sA-Za-z()]*', e):
